@@ -572,6 +572,19 @@ impl Scenario for Cw20Scen {
         if let Some(me) = self.pool.last() {
             self.env.contract.address = me.clone();
         }
+        // the chain knows a (migration) admin of the token contract — the second pool address — and a creator: facts of
+        // the environment that give nobody any right inside the token (the token's roles are its own)
+        if self.pool.len() >= 3 {
+            let admin = self.pool[1].clone();
+            let creator = self.pool[2].clone();
+            self.deps.querier.update_wasm(move |q| match q {
+                cosmwasm_std::WasmQuery::ContractInfo { .. } => {
+                    let r = cosmwasm_std::ContractInfoResponse::new(1, creator.clone(), Some(admin.clone()), false, None);
+                    cosmwasm_std::SystemResult::Ok(cosmwasm_std::ContractResult::Ok(cosmwasm_std::to_json_binary(&r).unwrap()))
+                }
+                _ => cosmwasm_std::SystemResult::Err(cosmwasm_std::SystemError::UnsupportedRequest { kind: "wasm".to_string() }),
+            });
+        }
         self.inited = false;
         self.legacy = false;
         self.seed = a.u64("seed");
